@@ -699,4 +699,193 @@ theorem not_live_stays (s : Spec T) (t : T) (hs : t ∉ s.map Prod.fst) (ops : L
 
 end Clauses
 
+
+/-! ### draining order -/
+section Drain
+variable {T : Type} [DecidableEq T]
+
+/-- stable insertion into a list sorted by descending priority: `x` (earlier than everything in
+    the list) goes before the first element whose priority is not greater -/
+def insDesc (x : T × Int) : Spec T → Spec T
+  | [] => [x]
+  | y :: ys => if y.2 ≤ x.2 then x :: y :: ys else y :: insDesc x ys
+
+/-- the live tasks ordered by descending priority, earlier (re-)insertion first among equals
+    (stable insertion sort) -/
+def sortDesc (s : Spec T) : Spec T := s.foldr insDesc []
+
+def SortedDesc (l : Spec T) : Prop := l.Pairwise (fun a b => b.2 ≤ a.2)
+
+theorem insDesc_perm (x : T × Int) (l : Spec T) : (insDesc x l).Perm (x :: l) := by
+  induction l with
+  | nil => exact List.Perm.refl _
+  | cons y ys ih =>
+    unfold insDesc
+    split
+    · exact List.Perm.refl _
+    · exact (List.Perm.cons y ih).trans (List.Perm.swap x y ys)
+
+theorem sortDesc_perm (s : Spec T) : (sortDesc s).Perm s := by
+  induction s with
+  | nil => exact List.Perm.refl _
+  | cons a as ih => exact (insDesc_perm a _).trans (List.Perm.cons a ih)
+
+theorem insDesc_sorted (x : T × Int) (l : Spec T) (h : SortedDesc l) : SortedDesc (insDesc x l) := by
+  induction l with
+  | nil => simp [insDesc, SortedDesc]
+  | cons y ys ih =>
+    unfold insDesc
+    unfold SortedDesc at h ih ⊢
+    rw [List.pairwise_cons] at h
+    split
+    · rename_i hle
+      rw [List.pairwise_cons]
+      refine ⟨?_, List.pairwise_cons.mpr h⟩
+      intro z hz
+      rcases List.mem_cons.mp hz with rfl | hz
+      · exact hle
+      · have := h.1 z hz; omega
+    · rename_i hnle
+      rw [List.pairwise_cons]
+      refine ⟨?_, ih h.2⟩
+      intro z hz
+      rw [(insDesc_perm x ys).mem_iff] at hz
+      rcases List.mem_cons.mp hz with rfl | hz
+      · omega
+      · exact h.1 z hz
+
+theorem sortDesc_sorted (s : Spec T) : SortedDesc (sortDesc s) := by
+  induction s with
+  | nil => exact List.Pairwise.nil
+  | cons a as ih => exact insDesc_sorted a _ ih
+
+theorem best_sortDesc (s : Spec T) : best s = (sortDesc s).head? := by
+  induction s with
+  | nil => rfl
+  | cons a as ih =>
+    unfold best
+    show _ = (insDesc a (sortDesc as)).head?
+    rw [ih]
+    cases hsd : sortDesc as with
+    | nil => rfl
+    | cons y ys =>
+      simp only [List.head?_cons, insDesc]
+      by_cases h : a.2 < y.2
+      · have : ¬ y.2 ≤ a.2 := by omega
+        simp [h, this]
+      · have : y.2 ≤ a.2 := by omega
+        simp [h, this]
+
+theorem insDesc_of_all_le (a : T × Int) (m : Spec T) (h : ∀ z ∈ m, z.2 ≤ a.2) : insDesc a m = a :: m := by
+  cases m with
+  | nil => rfl
+  | cons z zs => simp [insDesc, h z (by simp)]
+
+theorem insDesc_filter (p : T × Int → Bool) (a : T × Int) (l : Spec T) (hs : SortedDesc l) :
+    (insDesc a l).filter p = if p a then insDesc a (l.filter p) else l.filter p := by
+  induction l with
+  | nil => simp [insDesc]; split <;> simp_all
+  | cons y ys ih =>
+    unfold SortedDesc at hs ih
+    rw [List.pairwise_cons] at hs
+    have ih := ih hs.2
+    by_cases hle : y.2 ≤ a.2
+    · have h1 : insDesc a (y :: ys) = a :: y :: ys := by simp [insDesc, hle]
+      rw [h1]
+      have hall : ∀ z ∈ (y :: ys).filter p, z.2 ≤ a.2 := by
+        intro z hz
+        have hz := (List.mem_filter.mp hz).1
+        rcases List.mem_cons.mp hz with rfl | hz
+        · exact hle
+        · have := hs.1 z hz; omega
+      rw [insDesc_of_all_le a _ hall]
+      by_cases hpa : p a = true <;> simp [List.filter_cons, hpa]
+    · have h1 : insDesc a (y :: ys) = y :: insDesc a ys := by simp [insDesc, hle]
+      rw [h1]
+      by_cases hpy : p y = true
+      · simp only [List.filter_cons, hpy, ↓reduceIte, ih]
+        by_cases hpa : p a = true
+        · simp [hpa, insDesc, hle]
+        · simp [hpa]
+      · simp only [List.filter_cons, hpy, ih]
+        simp
+
+theorem sortDesc_filter (p : T × Int → Bool) (s : Spec T) :
+    sortDesc (s.filter p) = (sortDesc s).filter p := by
+  induction s with
+  | nil => rfl
+  | cons a as ih =>
+    show _ = (insDesc a (sortDesc as)).filter p
+    rw [insDesc_filter p a _ (sortDesc_sorted as)]
+    by_cases hpa : p a = true
+    · simp only [List.filter_cons, hpa, ↓reduceIte]
+      show insDesc a (sortDesc (as.filter p)) = _
+      rw [ih]
+    · simp only [List.filter_cons, hpa, ↓reduceIte]
+      exact ih
+
+/-- popping until empty returns the live tasks in `sortDesc` order -/
+theorem spec_drain (d : Bool) (n : Nat) (s : Spec T) (hn : (s.map Prod.fst).Nodup) (hlen : s.length = n) :
+    (Spec.runFrom s (List.replicate n (.pop d))).2 = (sortDesc s).map (fun x => Out.task x.1) ∧
+    (Spec.runFrom s (List.replicate n (.pop d))).1 = [] := by
+  induction n generalizing s with
+  | zero =>
+    have : s = [] := List.length_eq_zero_iff.mp hlen
+    subst this
+    exact ⟨rfl, rfl⟩
+  | succ k ih =>
+    have hperm := sortDesc_perm s
+    cases hsd : sortDesc s with
+    | nil =>
+      have := hperm.length_eq
+      rw [hsd] at this
+      simp at this
+      omega
+    | cons x tl =>
+      have hb : best s = some x := by rw [best_sortDesc, hsd]; rfl
+      have hnd : ((x :: tl).map Prod.fst).Nodup := by
+        rw [← hsd]; exact ((hperm.map Prod.fst).nodup_iff).mpr hn
+      have hfil : (x :: tl).filter (taskNe x.1) = tl := by
+        rw [List.map_cons, List.nodup_cons] at hnd
+        have hx : taskNe x.1 x = false := by simp [taskNe]
+        rw [List.filter_cons]
+        simp only [hx, Bool.false_eq_true, ↓reduceIte]
+        rw [List.filter_eq_self]
+        intro z hz
+        simp only [taskNe, Bool.not_eq_eq_eq_not, Bool.not_true, decide_eq_false_iff_not]
+        intro hzx
+        exact hnd.1 (List.mem_map.mpr ⟨z, hz, hzx⟩)
+      have hsd' : sortDesc (s.filter (taskNe x.1)) = tl := by
+        rw [sortDesc_filter, hsd, hfil]
+      have hlen' : (s.filter (taskNe x.1)).length = k := by
+        have h1 := (sortDesc_perm (s.filter (taskNe x.1))).length_eq
+        rw [hsd'] at h1
+        have h2 := hperm.length_eq
+        rw [hsd] at h2
+        simp at h2
+        omega
+      have hn' : ((s.filter (taskNe x.1)).map Prod.fst).Nodup :=
+        List.Nodup.sublist (List.Sublist.map _ List.filter_sublist) hn
+      obtain ⟨i1, i2⟩ := ih (s.filter (taskNe x.1)) hn' hlen'
+      simp only [List.replicate_succ, Spec.runFrom, Spec.step, hb]
+      rw [i1, i2, hsd']
+      simp
+
+
+def hasPrio (p : Int) (x : T × Int) : Bool := decide (x.2 = p)
+
+theorem sortDesc_of_same_prio (p : Int) (l : Spec T) (h : ∀ x ∈ l, x.2 = p) : sortDesc l = l := by
+  induction l with
+  | nil => rfl
+  | cons a as ih =>
+    show insDesc a (sortDesc as) = _
+    rw [ih (fun x hx => h x (List.mem_cons_of_mem _ hx))]
+    apply insDesc_of_all_le
+    intro z hz
+    have h1 := h z (List.mem_cons_of_mem _ hz)
+    have h2 := h a (by simp)
+    omega
+
+end Drain
+
 end C10
